@@ -575,49 +575,50 @@ Qed.
 (* no deadlock, and every execution can be completed                    *)
 
 Definition busy (p : wphase) : nat := match p with WFinished => 0 | _ => 1 end.
-Definition load (ws : list wphase) : nat := list_sum (map busy ws).
+Fixpoint load (ws : list wphase) : nat :=
+  match ws with [] => 0 | p :: r => busy p + load r end.
 
 Lemma load_app ws ws' : load (ws ++ ws') = load ws + load ws'.
-Proof. unfold load. rewrite map_app, list_sum_app. reflexivity. Qed.
+Proof. induction ws as [|p ws IH]; cbn [app load]; lia. Qed.
 
 Lemma load_upd ws : forall i p p', nth_error ws i = Some p -> load (upd ws i p') + busy p = load ws + busy p'.
 Proof.
   induction ws as [|q ws IH]; intros [|i] p p' H; cbn in H; try discriminate.
-  - inversion H; subst. unfold load. cbn. lia.
-  - specialize (IH i p p' H). unfold load in *. cbn. lia.
+  - inversion H; subst. cbn [upd load]. lia.
+  - specialize (IH i p p' H). cbn [upd load]. lia.
 Qed.
 
 Lemma load_pos ws : 0 < load ws -> exists i p, nth_error ws i = Some p /\ p <> WFinished.
 Proof.
-  induction ws as [|q ws IH]; unfold load; cbn; intros H; [lia|].
+  induction ws as [|q ws IH]; cbn [load]; intros H; [lia|].
   destruct q; try (exists 0; eexists; split; [reflexivity|discriminate]).
-  destruct (IH H) as (i & p & H1 & H2). exists (S i), p. auto.
+  cbn in H. destruct (IH H) as (i & p & H1 & H2). exists (S i), p. auto.
 Qed.
 
 (* tokens + workers that still hold one = level *)
 Definition tinv (level : nat) (st : cstate) : Prop := c_tokens st + load (c_workers st) = level.
 
 Lemma tinv_init level n : tinv level (init level n).
-Proof. unfold tinv, load. cbn. lia. Qed.
+Proof. unfold tinv. cbn. lia. Qed.
 
 Lemma step_tinv v level n s st st' a : tinv level st -> step v n s st a = Some st' -> tinv level st'.
 Proof.
   unfold tinv. destruct a as [|i]; cbn [step].
   - unfold step_disp. destruct (c_disp st) as [i|i|j| |r].
-    + destruct (i <? n); [destruct (c_latch st)|]; intros T H; inversion H; subst; exact T.
-    + destruct (c_tokens st) as [|k] eqn:E; [discriminate|]. intros T H; inversion H; subst. cbn.
-      rewrite load_app. unfold load at 2. cbn. lia.
+    + destruct (i <? n); [destruct (c_latch st)|]; intros T H; inversion H; subst st'; exact T.
+    + destruct (c_tokens st) as [|k] eqn:E; [discriminate|]. intros T H; inversion H; subst st'. cbn.
+      rewrite load_app. cbn. lia.
     + destruct (j <? n); [destruct (nth_error (c_workers st) j) as [p|]; [destruct (committed p)|]|];
-        try discriminate; intros T H; inversion H; subst; exact T.
-    + intros T H; inversion H; subst; exact T.
+        try discriminate; intros T H; inversion H; subst st'; exact T.
+    + intros T H; inversion H; subst st'; exact T.
     + discriminate.
   - unfold step_worker. destruct (nth_error (c_workers st) i) as [p|] eqn:E; [|discriminate].
     intros T. destruct p as [retry| | | |].
-    + destruct (s i retry); [| destruct (RetryCount <=? retry) |]; intros H; inversion H; subst; cbn;
+    + destruct (s i retry); [| destruct (RetryCount <=? retry) |]; intros H; inversion H; subst st'; cbn;
         match goal with |- _ + load (upd _ _ ?q) = _ => pose proof (load_upd _ _ _ q E) end; cbn in *; lia.
-    + intros H; inversion H; subst; cbn. pose proof (load_upd _ _ _ WCommit E). cbn in *; lia.
-    + intros H; inversion H; subst; cbn. pose proof (load_upd _ _ _ WRelease E). cbn in *; lia.
-    + intros H; inversion H; subst; cbn. pose proof (load_upd _ _ _ WFinished E). cbn in *; lia.
+    + intros H; inversion H; subst st'; cbn. pose proof (load_upd _ _ _ WCommit E). cbn in *; lia.
+    + intros H; inversion H; subst st'; cbn. pose proof (load_upd _ _ _ WRelease E). cbn in *; lia.
+    + intros H; inversion H; subst st'; cbn. pose proof (load_upd _ _ _ WFinished E). cbn in *; lia.
     + discriminate.
 Qed.
 
@@ -650,17 +651,18 @@ Definition dmeasure (n : nat) (d : dphase) : nat :=
   | DReturn => 1
   | DDone _ => 0
   end.
-Definition wsum (ws : list wphase) : nat := list_sum (map wmeasure ws).
+Fixpoint wsum (ws : list wphase) : nat :=
+  match ws with [] => 0 | p :: r => wmeasure p + wsum r end.
 Definition measure (n : nat) (st : cstate) : nat := dmeasure n (c_disp st) + wsum (c_workers st).
 
 Lemma wsum_app ws ws' : wsum (ws ++ ws') = wsum ws + wsum ws'.
-Proof. unfold wsum. rewrite map_app, list_sum_app. reflexivity. Qed.
+Proof. induction ws as [|p ws IH]; cbn [app wsum]; lia. Qed.
 
 Lemma wsum_upd ws : forall i p p', nth_error ws i = Some p -> wsum (upd ws i p') + wmeasure p = wsum ws + wmeasure p'.
 Proof.
   induction ws as [|q ws IH]; intros [|i] p p' H; cbn in H; try discriminate.
-  - inversion H; subst. unfold wsum. cbn [upd map list_sum]. lia.
-  - specialize (IH i p p' H). unfold wsum in *. cbn [upd map list_sum]. lia.
+  - inversion H; subst. cbn [upd wsum]. lia.
+  - specialize (IH i p p' H). cbn [upd wsum]. lia.
 Qed.
 
 Lemma step_measure n s st st' a :
@@ -673,7 +675,7 @@ Proof.
       * apply Nat.ltb_lt in Lt. destruct (c_latch st); intros H; inversion H; subst; cbn; unfold wmax, RetryCount; lia.
       * apply Nat.ltb_ge in Lt. intros H; inversion H; subst; cbn. lia.
     + destruct (c_tokens st) as [|k]; [discriminate|]. intros H; inversion H; subst. cbn [c_disp c_workers].
-      rewrite wsum_app. unfold wsum at 2. cbn. unfold wmax, RetryCount. cbn.
+      rewrite wsum_app. cbn. unfold wmax, RetryCount. cbn.
       destruct D as (_ & D). replace (n - i) with (S (n - S i)) by lia. lia.
     + destruct (j <? n) eqn:Lt.
       * apply Nat.ltb_lt in Lt. destruct (nth_error (c_workers st) j) as [p|]; [|discriminate].
@@ -689,7 +691,7 @@ Proof.
       * destruct (RetryCount <=? retry) eqn:L; intros H; inversion H; subst; cbn [c_disp c_workers set_worker].
         -- pose proof (wsum_upd _ _ _ WReport E). cbn in *. lia.
         -- apply Nat.leb_gt in L. pose proof (wsum_upd _ _ _ (WRun (S retry)) E).
-           unfold RetryCount in *. cbn in *. lia.
+           unfold wmeasure, RetryCount in *. lia.
       * intros H; inversion H; subst; cbn [c_disp c_workers set_worker].
         pose proof (wsum_upd _ _ _ WReport E). cbn in *. lia.
     + intros H; inversion H; subst; cbn [c_disp c_workers].
